@@ -11,9 +11,13 @@ import ZV.Base
                     atomic counter; a schedule is a list of worker ids
   * `processEntry`  which callback / counters an entry of a given kind produces
 
+  * `Obj`/`resetCounters`/`initOn`/`scanSeq`  the counter fields of the `Scanner` VALUE, which survive from one
+                    `Scan` call to the next, the prologue of `Scan` that resets them, and consecutive scans on one value
+
   What is NOT here: the Go scheduler and memory model (every `step` is atomic; that the counter updates of
-  the real code are atomic is checked by the race detector, not proved), channel capacities (1000 / 100000),
-  the progress ticker goroutine, logging.
+  the real code are atomic is checked by the race detector, not proved), channel capacities (1000 / 100000;
+  the harness runs scans just below, at and above both capacities against the real code), the progress ticker
+  goroutine, logging.
 -/
 namespace ZV.C17
 
@@ -285,5 +289,65 @@ def processEntry (o : Opts) (k : Kind) : Eff :=
     | .ignored => ⟨.precert, 1, 1, 0⟩
     | .ok => ⟨if isMatch o k then .precert else .none, 1, 0, 0⟩
     | .nonFatal => ⟨if isMatch o k then .precert else .none, 1, 0, 1⟩
+
+/-! ### 5. one `Scanner` value, several `Scan` calls
+
+```go
+type Scanner struct { …; certsProcessed, precertsSeen, unparsableEntries, entriesWithNonFatalErrors int64; … }
+
+func (s *Scanner) Scan(…) (int64, error) {
+    s.certsProcessed = 0
+    s.precertsSeen = 0
+    s.unparsableEntries = 0
+    s.entriesWithNonFatalErrors = 0
+    …
+    return int64(s.opts.StartIndex) + s.certsProcessed, nil
+```
+The counters are fields of the object, not locals of `Scan`: whatever an earlier scan left there is what the
+next scan starts from, unless the prologue overwrites it. -/
+
+/-- the four counter fields of a `Scanner` value -/
+structure Obj where
+  certs : Nat
+  precerts : Nat
+  unparsable : Nat
+  nonFatal : Nat
+  deriving Repr, DecidableEq
+
+/-- `NewScanner` (zero-initialised counters) -/
+def Obj.new : Obj := ⟨0, 0, 0, 0⟩
+
+/-- the prologue of `Scan` -/
+def resetCounters (_ : Obj) : Obj := ⟨0, 0, 0, 0⟩
+
+/-- `init`, for a `Scan` whose workers start counting from the object's current `certsProcessed` -/
+def initOn (ob : Obj) (start stop batch nf nm : Nat) (scriptOf : Nat → List Tok) : St :=
+  { init start stop batch nf nm scriptOf with counter := ob.certs }
+
+/-- parameters of one `Scan` call (options, the server's behaviour, the schedule the runtime happens to pick) -/
+structure ScanCfg where
+  start : Nat
+  stop : Nat
+  batch : Nat
+  nf : Nat
+  nm : Nat
+  scriptOf : Nat → List Tok
+  sched : List Worker
+
+/-- one `Scan` call on a `Scanner` value whose counters currently hold `ob`: prologue, then the interleaved run -/
+def scanOn (ob : Obj) (c : ScanCfg) : St :=
+  run (initOn (resetCounters ob) c.start c.stop c.batch c.nf c.nm c.scriptOf) c.sched
+
+/-- the same `Scan` call on a fresh `Scanner` (what every theorem of sections 3 and 4 talks about) -/
+def scanFresh (c : ScanCfg) : St := run (init c.start c.stop c.batch c.nf c.nm c.scriptOf) c.sched
+
+/-- consecutive `Scan` calls on ONE value: (return value, final state) of each; the `certsProcessed` a scan
+    leaves behind is what the next one finds (the other three counters do not influence the control flow or the
+    return value; the driver threads them the same way) -/
+def scanSeq (ob : Obj) : List ScanCfg → List (Nat × St)
+  | [] => []
+  | c :: cs =>
+    let st := scanOn ob c
+    (scanReturn c.start st, st) :: scanSeq { ob with certs := st.counter } cs
 
 end ZV.C17
